@@ -1128,7 +1128,10 @@ func (d *indexData) newMatchTree(q query.Q, opt matchTreeOpt) (matchTree, error)
 
 	case *query.Branch:
 		masks := make([]uint64, 0, len(d.repoMetaData))
-		if s.Pattern == "HEAD" {
+		// "HEAD" is an alias for the first indexed branch, except when an exact
+		// branch name is asked for (the sharded searcher rewrites a
+		// single-branch BranchesRepos, which matches names exactly, to this).
+		if s.Pattern == "HEAD" && !s.Exact {
 			for range d.repoMetaData {
 				masks = append(masks, 1)
 			}
